@@ -184,7 +184,12 @@ func (s *Sys) Probe(c *Ctx, who int, book *secretBook) holdings {
 	}
 	// sent text: only the most recent message may be kept once it has been transmitted
 	if len(p.texts) > 0 {
-		latest := string(p.texts[len(p.texts)-1])
+		latest := ""
+		for i := len(p.texts) - 1; i >= 0 && latest == ""; i-- {
+			if !s.refused[string(p.texts[i])] {
+				latest = string(p.texts[i])
+			}
+		}
 		for _, t := range h.texts {
 			if t != latest && s.sentEnc[t] {
 				c.Violate("old-text-retained", "state="+state, fmt.Sprintf("text %q was transmitted earlier and is not the most recent message, but is still reachable", t), ctx())
@@ -301,9 +306,9 @@ func c08History(c *Ctx, steps int) *Sys {
 
 func genC08(c *Ctx) {
 	c.Rep.Rule = "histories of sends, deliveries, (refresh) key exchanges left unfinished or completed, losses, End, peer disconnect, SMP, error messages and clock ticks; after every call the object graph reachable from each *Conversation (pointers, slices and big.Int limb arrays to their full capacity, maps, interfaces) is searched for every value the party's random source handed out, for the session and AKE keys an independent derivation gives for the recent exponents, and for every text given to Send; the projection (number of DH private keys, r, AKE keys, SMP state, retained texts) is compared with the Coq machine as a scenario step; oracles: at most current+previous(+exchange in progress) private keys, no AKE ephemerals without an exchange in progress, nothing at all when not encrypted and no exchange in progress, every buffer that received a secret is zeroed once it is unreachable"
-	n, steps := 10, 40
+	n, steps := 30, 40
 	if c.Thorough() {
-		n, steps = 200, 90
+		n, steps = 300, 90
 	}
 	for i := 0; i < n; i++ {
 		s := c08History(c, steps)
